@@ -1,14 +1,829 @@
-// Package c03 is the correspondence area of property C03 (stub: the slice is not built yet).
+// Package c03 is the correspondence area of property C03: HTTP requests route to exactly the binding
+// whose path template matches. Three streams (first field of the line):
+//
+//	m  one template against one component list: real gwbased.Parse + Compile + runtime.NewPattern + MatchAndEscape
+//	u  request-target parsing: real url.ParseRequestURI / http.ReadRequest (Path, RawPath, EscapedPath)
+//	r  the real routing.PatternRouter (Watch + UpdateDesc per generated bridgedesc.Target, fake pool) + RouteHTTP
+//
+// The line formats are documented in lean/GB/C03/Driver.lean.
 package c03
 
 import (
+	"bufio"
+	"context"
+	"errors"
+	"fmt"
 	"math/rand"
+	"net/http"
+	"net/url"
+	"sort"
+	"strconv"
+	"strings"
+
+	"github.com/grpc-ecosystem/grpc-gateway/v2/runtime"
+	"github.com/renbou/grpcbridge/bridgedesc"
+	"github.com/renbou/grpcbridge/grpcadapter"
+	"github.com/renbou/grpcbridge/routing"
+	"github.com/renbou/grpcbridge/verifx"
+	"google.golang.org/grpc/codes"
+	"google.golang.org/grpc/status"
+	"google.golang.org/protobuf/reflect/protoreflect"
+	"verif/harness/common"
 )
 
 type Area struct{}
 
 func (Area) Name() string { return "c03" }
 
-func (Area) Exec(input string) string { return "UNIMPLEMENTED" }
+// ---------------------------------------------------------------------------------------------
+// template AST (generator side) and its two renderings: line format and template text
 
-func (Area) Gen(r *rand.Rand, tier string, emit func(string)) {}
+type part struct {
+	kind byte // 'L', 'S', 'D'
+	lit  string
+}
+
+type seg struct {
+	kind  byte // 'L', 'S', 'D', 'V'
+	lit   string
+	path  string
+	parts []part
+}
+
+type tmpl struct {
+	segs []seg
+	verb string
+}
+
+const eof = "\x00"
+
+func (p part) enc() string {
+	if p.kind == 'L' {
+		return "L" + common.HexS(p.lit)
+	}
+	return string(p.kind)
+}
+
+func (s seg) enc() string {
+	if s.kind == 'V' {
+		ps := make([]string, len(s.parts))
+		for i, p := range s.parts {
+			ps[i] = p.enc()
+		}
+		return "V" + common.HexS(s.path) + ":" + strings.Join(ps, ".")
+	}
+	return part{s.kind, s.lit}.enc()
+}
+
+func (t tmpl) enc() string {
+	ss := make([]string, len(t.segs))
+	for i, s := range t.segs {
+		ss[i] = s.enc()
+	}
+	return strings.Join(ss, ",") + "|" + common.HexS(t.verb)
+}
+
+func (p part) text() string {
+	switch p.kind {
+	case 'S':
+		return "*"
+	case 'D':
+		return "**"
+	}
+	if p.lit == eof {
+		return ""
+	}
+	return p.lit
+}
+
+func (t tmpl) text() string {
+	ss := make([]string, len(t.segs))
+	for i, s := range t.segs {
+		if s.kind == 'V' {
+			ps := make([]string, len(s.parts))
+			for j, p := range s.parts {
+				ps[j] = p.text()
+			}
+			ss[i] = "{" + s.path + "=" + strings.Join(ps, "/") + "}"
+		} else {
+			ss[i] = part{s.kind, s.lit}.text()
+		}
+	}
+	out := "/" + strings.Join(ss, "/")
+	if t.verb != "" {
+		out += ":" + t.verb
+	}
+	return out
+}
+
+func decPart(s string) part {
+	if s == "S" || s == "D" {
+		return part{kind: s[0]}
+	}
+	if strings.HasPrefix(s, "L") {
+		return part{kind: 'L', lit: string(common.MustUnHex(s[1:]))}
+	}
+	panic("bad part " + s)
+}
+
+func decAst(s string) tmpl {
+	segsS, verbS, ok := strings.Cut(s, "|")
+	if !ok {
+		panic("bad ast " + s)
+	}
+	var t tmpl
+	t.verb = string(common.MustUnHex(verbS))
+	if segsS == "" {
+		return t
+	}
+	for _, x := range strings.Split(segsS, ",") {
+		if strings.HasPrefix(x, "V") {
+			p, ps, _ := strings.Cut(x[1:], ":")
+			sg := seg{kind: 'V', path: string(common.MustUnHex(p))}
+			for _, y := range strings.Split(ps, ".") {
+				sg.parts = append(sg.parts, decPart(y))
+			}
+			t.segs = append(t.segs, sg)
+		} else {
+			p := decPart(x)
+			t.segs = append(t.segs, seg{kind: p.kind, lit: p.lit})
+		}
+	}
+	return t
+}
+
+// tspecText returns the template text of a tspec (`A:`ast | `R:`hex).
+func tspecText(s string) string {
+	switch {
+	case strings.HasPrefix(s, "A:"):
+		return decAst(s[2:]).text()
+	case strings.HasPrefix(s, "R:"):
+		return string(common.MustUnHex(s[2:]))
+	}
+	panic("bad tspec " + s)
+}
+
+// encParsed renders what the real parser returned in the AST line format ("ERR" when it refused).
+func encParsed(text string) (string, verifx.GWCompiler) {
+	c, err := verifx.GWParse(text)
+	if err != nil {
+		return "ERR", nil
+	}
+	segs, verb, ok := verifx.GWSegments(c)
+	if !ok {
+		return "ERR", nil
+	}
+	var t tmpl
+	t.verb = verb
+	for _, s := range segs {
+		sg := seg{kind: s.Kind, lit: s.Lit, path: s.Path}
+		for _, p := range s.Parts {
+			sg.parts = append(sg.parts, part{kind: p.Kind, lit: p.Lit})
+		}
+		t.segs = append(t.segs, sg)
+	}
+	return t.enc(), c
+}
+
+func hexList(xs []string) string {
+	if len(xs) == 0 {
+		return "-"
+	}
+	out := make([]string, len(xs))
+	for i, x := range xs {
+		out[i] = common.HexS(x)
+	}
+	return strings.Join(out, ",")
+}
+
+func unHexList(s string) []string {
+	if s == "-" {
+		return []string{}
+	}
+	var out []string
+	for _, x := range strings.Split(s, ",") {
+		out = append(out, string(common.MustUnHex(x)))
+	}
+	return out
+}
+
+func canonParams(m map[string]string) string {
+	if len(m) == 0 {
+		return "-"
+	}
+	var keys []string
+	for k := range m {
+		keys = append(keys, common.HexS(k)) // hex preserves the byte order of the keys
+	}
+	sort.Strings(keys)
+	kv := make([]string, len(keys))
+	for i, k := range keys {
+		kv[i] = k + "=" + common.HexS(m[string(common.MustUnHex(k))])
+	}
+	return strings.Join(kv, ",")
+}
+
+// ---------------------------------------------------------------------------------------------
+// Exec
+
+func (Area) Exec(input string) string {
+	f := strings.Fields(input)
+	switch f[0] {
+	case "m":
+		return execMatch(f[1], f[2], f[3])
+	case "u":
+		return execURL(f[1], string(common.MustUnHex(f[2])))
+	case "r":
+		return execRoute(f[1], string(common.MustUnHex(f[2])), f[3], string(common.MustUnHex(f[4])))
+	}
+	return "BADOP"
+}
+
+func execMatch(tspec, compsS, verbS string) string {
+	text := tspecText(tspec)
+	comps := unHexList(compsS)
+	verb := string(common.MustUnHex(verbS))
+	ast, c := encParsed(text)
+	if c == nil {
+		return "ERR"
+	}
+	tp := c.Compile()
+	ops := "-"
+	if len(tp.OpCodes) > 0 {
+		xs := make([]string, len(tp.OpCodes))
+		for i, o := range tp.OpCodes {
+			xs[i] = strconv.Itoa(o)
+		}
+		ops = strings.Join(xs, ",")
+	}
+	head := fmt.Sprintf("%s %s %s %s %s", ast, ops, hexList(tp.Pool), common.HexS(tp.Verb), hexList(tp.Fields))
+	pat, err := runtime.NewPattern(tp.Version, tp.OpCodes, tp.Pool, tp.Verb)
+	if err != nil {
+		return "- E " + head
+	}
+	res, err := pat.MatchAndEscape(comps, verb, runtime.UnescapingModeAllExceptReserved)
+	var mse runtime.MalformedSequenceError
+	switch {
+	case err == nil:
+		return "ok:" + canonParams(res) + " P " + head
+	case errors.As(err, &mse):
+		return "mal P " + head
+	case errors.Is(err, runtime.ErrNotMatch):
+		return "nm P " + head
+	}
+	return "othererr P " + head
+}
+
+func readRequest(target string) (*http.Request, error) {
+	req, err := http.ReadRequest(bufio.NewReader(strings.NewReader("GET " + target + " HTTP/1.1\r\nHost: x\r\n\r\n")))
+	if err != nil {
+		return nil, err
+	}
+	if req.RequestURI != target {
+		// the request line was cut somewhere else (space / line break inside the target): not this target
+		return nil, errors.New("request line does not carry the target")
+	}
+	return req, nil
+}
+
+func execURL(kind, target string) string {
+	var u *url.URL
+	switch kind {
+	case "pru":
+		x, err := url.ParseRequestURI(target)
+		if err != nil {
+			return "err"
+		}
+		u = x
+	case "req":
+		req, err := readRequest(target)
+		if err != nil {
+			return "err"
+		}
+		u = req.URL
+	default:
+		return "BADKIND"
+	}
+	return fmt.Sprintf("ok %s %s %s", common.HexS(u.Path), common.HexS(u.RawPath), common.HexS(u.EscapedPath()))
+}
+
+type fakeConn struct{}
+
+func (fakeConn) Stream(ctx context.Context, method string) (grpcadapter.ClientStream, error) {
+	return nil, errors.New("fake")
+}
+func (fakeConn) Close() {}
+
+type fakePool struct{}
+
+func (fakePool) Get(target string) (grpcadapter.ClientConn, bool) { return fakeConn{}, true }
+
+func execRoute(table, method, kind, x string) string {
+	router := routing.NewPatternRouter(fakePool{}, routing.PatternRouterOpts{})
+	var targets []*bridgedesc.Target
+	var parsed []string
+	for ti, ts := range strings.Split(table, ";") {
+		t := &bridgedesc.Target{Name: fmt.Sprintf("t%d", ti)}
+		for si, ss := range strings.Split(ts, "+") {
+			svc := bridgedesc.Service{Name: protoreflect.FullName(fmt.Sprintf("pkg.S%d_%d", ti, si))}
+			for _, ms := range strings.Split(ss, "!") {
+				fs := strings.Split(ms, "~")
+				m := bridgedesc.Method{RPCName: string(common.MustUnHex(fs[0]))}
+				p, _ := encParsed(m.RPCName)
+				parsed = append(parsed, p)
+				for _, bs := range fs[1:] {
+					hm, tspec, _ := strings.Cut(bs, "@")
+					text := tspecText(tspec)
+					m.Bindings = append(m.Bindings, bridgedesc.Binding{HTTPMethod: string(common.MustUnHex(hm)), Pattern: text})
+					p, _ := encParsed(text)
+					parsed = append(parsed, p)
+				}
+				svc.Methods = append(svc.Methods, m)
+			}
+			t.Services = append(t.Services, svc)
+		}
+		targets = append(targets, t)
+	}
+	for _, t := range targets {
+		w, err := router.Watch(t.Name)
+		if err != nil {
+			return "WATCHERR"
+		}
+		w.UpdateDesc(t)
+	}
+	head := strings.Join(parsed, ";")
+
+	var req *http.Request
+	switch kind {
+	case "req":
+		r, err := readRequest(x)
+		if err != nil {
+			return "urlerr " + head
+		}
+		req = r
+		req.Method = method
+	case "raw":
+		req = &http.Request{Method: method, URL: &url.URL{RawPath: x}}
+	case "path":
+		req = &http.Request{Method: method, URL: &url.URL{Path: x}}
+	default:
+		return "BADKIND"
+	}
+	conn, route, err := router.RouteHTTP(req)
+	if err != nil {
+		st, _ := status.FromError(err)
+		switch st.Code() {
+		case codes.NotFound:
+			return "err:NotFound " + head
+		case codes.InvalidArgument:
+			return "err:InvalidArgument " + head
+		}
+		return "err:" + st.Code().String() + " " + head
+	}
+	if conn == nil || route.Target == nil || route.Service == nil || route.Method == nil || route.Binding == nil {
+		return "incomplete-route " + head
+	}
+	ti, si, mi, bi := -1, -1, -1, "d"
+	for i, t := range targets {
+		if t == route.Target {
+			ti = i
+		}
+	}
+	if ti >= 0 {
+		for i := range targets[ti].Services {
+			if &targets[ti].Services[i] == route.Service {
+				si = i
+			}
+		}
+	}
+	if si >= 0 {
+		ms := targets[ti].Services[si].Methods
+		for i := range ms {
+			if &ms[i] == route.Method {
+				mi = i
+			}
+		}
+		if mi >= 0 {
+			for i := range ms[mi].Bindings {
+				if &ms[mi].Bindings[i] == route.Binding {
+					bi = strconv.Itoa(i)
+				}
+			}
+			if bi == "d" && len(ms[mi].Bindings) > 0 {
+				bi = "unknown-binding"
+			}
+		}
+	}
+	return fmt.Sprintf("found:%d:%d:%d:%s:%s %s", ti, si, mi, bi, canonParams(route.PathParams), head)
+}
+
+// ---------------------------------------------------------------------------------------------
+// Gen
+
+var (
+	litPool   = []string{"a", "b", "v1", "users", "x.y", "a-b", "~", "a%41", "%2F", "items", "A", "a+b", "@me", "c", "v"}
+	pathPool  = []string{"x", "id", "name", "a.b", "user.id", "x_1", "parent"}
+	verbPool  = []string{"get", "watch", "v", "x", "a-b", "get"}
+	methPool  = []string{"GET", "POST", "GET", "POST", "PUT", "DELETE", "get"}
+	segPool   = []string{"a", "b", "c", "v1", "users", "", "x%2Fy", "%41", "%25", "%2541", "%zz", "%", "a%", "a%4", "\xc3\xa9", "a b", "a+b", "a:b", ":get", "a:get", "x:v", "%3A", "%3a", "%2f", "~", "A", "a%41", "%2F", "%3Fq", "a;b", "%23", "%5B%5D", "100%", "%%", "%00", "a\x7fb", "%e4%b8%96", "..", "."}
+	exSymbols = []string{"a", "b", "", "%2F", "a:v", "%zz"}
+)
+
+var dist = map[string]int{}
+
+func (Area) Extra() map[string]any {
+	out := map[string]any{}
+	for k, v := range dist {
+		out[k] = v
+	}
+	return out
+}
+
+func genPart(r *rand.Rand, allowDeep bool) part {
+	switch k := r.Intn(10); {
+	case k < 5:
+		return part{kind: 'L', lit: common.Pick(r, litPool)}
+	case k < 8 || !allowDeep:
+		return part{kind: 'S'}
+	default:
+		return part{kind: 'D'}
+	}
+}
+
+// genTmpl produces a grammar-directed template; deepBudget bounds the number of `**` (2 ⇒ sometimes invalid patterns).
+func genTmpl(r *rand.Rand) tmpl {
+	if r.Intn(60) == 0 {
+		return tmpl{segs: []seg{{kind: 'L', lit: eof}}} // the template "/"
+	}
+	deepBudget := 1
+	if r.Intn(25) == 0 {
+		deepBudget = 2
+	}
+	n := 1 + r.Intn(4)
+	var t tmpl
+	for i := 0; i < n; i++ {
+		switch k := r.Intn(100); {
+		case k < 50:
+			t.segs = append(t.segs, seg{kind: 'L', lit: common.Pick(r, litPool)})
+		case k < 63:
+			t.segs = append(t.segs, seg{kind: 'S'})
+		case k < 70:
+			if deepBudget > 0 {
+				deepBudget--
+				t.segs = append(t.segs, seg{kind: 'D'})
+			} else {
+				t.segs = append(t.segs, seg{kind: 'S'})
+			}
+		default:
+			sg := seg{kind: 'V', path: common.Pick(r, pathPool)}
+			np := 1
+			if r.Intn(3) == 0 {
+				np = 2 + r.Intn(2)
+			}
+			for j := 0; j < np; j++ {
+				p := genPart(r, deepBudget > 0)
+				if p.kind == 'D' {
+					deepBudget--
+				}
+				sg.parts = append(sg.parts, p)
+			}
+			t.segs = append(t.segs, sg)
+		}
+	}
+	if r.Intn(10) < 3 {
+		t.verb = common.Pick(r, verbPool)
+	}
+	return t
+}
+
+func randSeg(r *rand.Rand) string {
+	switch r.Intn(12) {
+	case 0: // %XX of a random byte of any class
+		b := byte(r.Intn(256))
+		h := fmt.Sprintf("%%%02X", b)
+		if r.Intn(2) == 0 {
+			h = strings.ToLower(h)
+		}
+		return common.Pick(r, []string{"", "a", "x"}) + h + common.Pick(r, []string{"", "b", "%2F"})
+	case 1: // random printable bytes
+		return string(common.RandBytes(r, 1+r.Intn(4), []byte("abAB01-._~!$&'()*+,;=:@%/? #[]")))
+	case 2:
+		return string(common.RandBytes(r, 1+r.Intn(3), nil))
+	}
+	return common.Pick(r, segPool)
+}
+
+// instantiate returns raw path segments that match t by construction (unless a drawn segment is malformed).
+func instantiate(r *rand.Rand, t tmpl) []string {
+	var out []string
+	add := func(p part) {
+		switch p.kind {
+		case 'L':
+			if p.lit == eof {
+				out = append(out, "")
+			} else {
+				out = append(out, p.lit)
+			}
+		case 'S':
+			out = append(out, randSeg(r))
+		case 'D':
+			for i, n := 0, r.Intn(4); i < n; i++ {
+				out = append(out, randSeg(r))
+			}
+		}
+	}
+	for _, s := range t.segs {
+		if s.kind == 'V' {
+			for _, p := range s.parts {
+				add(p)
+			}
+		} else {
+			add(part{s.kind, s.lit})
+		}
+	}
+	if t.verb != "" {
+		if len(out) == 0 {
+			out = append(out, "")
+		}
+		out[len(out)-1] += ":" + t.verb
+	}
+	return out
+}
+
+func mutate(r *rand.Rand, segs []string) []string {
+	segs = append([]string{}, segs...)
+	switch r.Intn(16) {
+	case 0: // drop
+		if len(segs) > 0 {
+			i := r.Intn(len(segs))
+			segs = append(segs[:i], segs[i+1:]...)
+		}
+	case 1: // duplicate
+		if len(segs) > 0 {
+			i := r.Intn(len(segs))
+			segs = append(segs[:i+1], segs[i:]...)
+		}
+	case 2: // empty segment
+		if len(segs) > 0 {
+			segs[r.Intn(len(segs))] = ""
+		}
+	case 3: // trailing slash
+		segs = append(segs, "")
+	case 4: // replace
+		if len(segs) > 0 {
+			segs[r.Intn(len(segs))] = randSeg(r)
+		}
+	case 5: // strip verb
+		if len(segs) > 0 {
+			l := segs[len(segs)-1]
+			if i := strings.LastIndex(l, ":"); i >= 0 {
+				segs[len(segs)-1] = l[:i]
+			}
+		}
+	case 6: // add / change verb
+		if len(segs) > 0 {
+			segs[len(segs)-1] += ":" + common.Pick(r, verbPool)
+		}
+	case 7: // the last segment is only a verb
+		if len(segs) > 0 {
+			segs[len(segs)-1] = ":" + common.Pick(r, verbPool)
+		}
+	case 8: // insert
+		i := r.Intn(len(segs) + 1)
+		segs = append(segs[:i], append([]string{randSeg(r)}, segs[i:]...)...)
+	}
+	return segs
+}
+
+func genTable(r *rand.Rand) (string, []tmpl, []string) {
+	// a small pool of templates per table so that bindings overlap / share prefixes
+	pool := make([]tmpl, 2+r.Intn(4))
+	for i := range pool {
+		pool[i] = genTmpl(r)
+		isRoot := func(t tmpl) bool { return len(t.segs) == 1 && t.segs[0].lit == eof }
+		if i > 0 && r.Intn(3) == 0 && !isRoot(pool[i]) && !isRoot(pool[i-1]) { // share a prefix with the previous one
+			prev := pool[i-1]
+			k := 1 + r.Intn(len(prev.segs))
+			pool[i].segs = append(append([]seg{}, prev.segs[:k]...), pool[i].segs...)
+			if len(pool[i].segs) > 5 {
+				pool[i].segs = pool[i].segs[:5]
+			}
+		}
+	}
+	var all []tmpl
+	var allM []string
+	nb := 0
+	var ts []string
+	for ti, nt := 0, 1+r.Intn(3); ti < nt; ti++ {
+		var ss []string
+		for si, ns := 0, 1+r.Intn(2); si < ns; si++ {
+			var ms []string
+			for mi, nm := 0, 1+r.Intn(3); mi < nm; mi++ {
+				name := fmt.Sprintf("/pkg.S%d_%d/M%d", ti, si, mi)
+				if r.Intn(40) == 0 {
+					name = common.Pick(r, []string{"/p.S/M:x", "p.S/M", "/p.S/{a}", "/", "/p.S/**", "//", "/p.S/M/", ""})
+				}
+				m := common.HexS(name)
+				k := r.Intn(4)
+				if nb >= 8 {
+					k = 0
+				}
+				if k == 0 {
+					all = append(all, tmpl{segs: nil})
+					allM = append(allM, "POST "+name)
+				}
+				for bi := 0; bi < k; bi++ {
+					hm := common.Pick(r, methPool)
+					var spec string
+					if r.Intn(25) == 0 {
+						raw := common.Pick(r, []string{"a/b", "/a/{x", "/a//b", "/{a=**}/{b=**}", "/a/b:", "/a:b:c", "/{x}:v:w", "/a/%zz", "/a/{x=*}}", "/a b", "/{a.b.c}", "/v1/{name=users/*}:get", "/a:%zz", "/**/a/*", ""})
+						spec = "R:" + common.HexS(raw)
+					} else {
+						t := common.Pick(r, pool)
+						spec = "A:" + t.enc()
+						all = append(all, t)
+						allM = append(allM, hm)
+					}
+					m += "~" + common.HexS(hm) + "@" + spec
+					nb++
+				}
+				ms = append(ms, m)
+			}
+			ss = append(ss, strings.Join(ms, "!"))
+		}
+		ts = append(ts, strings.Join(ss, "+"))
+	}
+	return strings.Join(ts, ";"), all, allM
+}
+
+func (Area) Gen(r *rand.Rand, tier string, emit func(string)) {
+	thorough := tier == "thorough"
+	count := func(k string) { dist[k]++ }
+
+	// --- built-in cases: the D2 / D3 witnesses, the cases pinned by the repo's own test-suite shapes
+	tA := tmpl{segs: []seg{{kind: 'L', lit: "a"}, {kind: 'S'}}, verb: "get"}
+	tB := tmpl{segs: []seg{{kind: 'L', lit: "a"}, {kind: 'S'}}}
+	tV := tmpl{segs: []seg{{kind: 'L', lit: "v"}, {kind: 'V', path: "x", parts: []part{{kind: 'S'}}}}}
+	tW := tmpl{segs: []seg{{kind: 'L', lit: "w"}, {kind: 'V', path: "p", parts: []part{{kind: 'D'}}}}, verb: "watch"}
+	tbl := common.HexS("/p.S/A") + "~" + common.HexS("GET") + "@A:" + tA.enc() +
+		"!" + common.HexS("/p.S/B") + "~" + common.HexS("GET") + "@A:" + tB.enc() + "~" + common.HexS("GET") + "@A:" + tV.enc() +
+		"!" + common.HexS("/p.S/C") +
+		";" + common.HexS("/q.S/W") + "~" + common.HexS("POST") + "@A:" + tW.enc() + "~" + common.HexS("GET") + "@A:" + tB.enc()
+	for _, target := range []string{"/a/:get", "/a/x:get", "/v/%2541", "/v/%25zz", "/v/%41", "/v/a%2Fb", "/v/%zz", "/a/", "/a", "/", "", "a/b", "/v/x?q=1", "/v/x?", "/a/b/", "//a/b", "/v/%", "*", "/v/a b", "/p.S/C"} {
+		for _, kind := range []string{"req", "raw", "path"} {
+			emit(fmt.Sprintf("r %s %s %s %s", tbl, common.HexS("GET"), kind, common.HexS(target)))
+		}
+	}
+	for _, target := range []string{"/p.S/C", "/p.S/C/", "/p.S/A", "/w/a/b%2Fc/d:watch", "/w/:watch", "/w:watch", "/w/%2f%41:watch"} {
+		for _, kind := range []string{"req", "raw", "path"} {
+			emit(fmt.Sprintf("r %s %s %s %s", tbl, common.HexS("POST"), kind, common.HexS(target)))
+		}
+	}
+	for _, target := range []string{"/", "/a", "/a%41", "/a%2541", "/a%zz", "/a?b", "/a?", "/a?b?", "/a%3Fb", "/a#b", "/a b", "*", "", "a", "http://h/a", "//h/a", "/a/../b", "/%", "/%4", "/a\x01", "/a\x7f", "/\xc3\xa9", "/%C3%A9", "/a;b,c", "/a[b]", "/a|b", "/!$&'()*+,;=:@", "/a%2Fb", "/a%2fb", "/~-._", "/a\\b", "/a\"b", "/a<b>", "/a^`{}"} {
+		emit("u pru " + common.HexS(target))
+		emit("u req " + common.HexS(target))
+	}
+
+	// --- m: exhaustive small space: templates of ≤ 2 (quick) / ≤ 3 (thorough) segments over 7 segment shapes
+	// × verb/no verb, against every component list of ≤ 3 components over a 6-symbol alphabet × 2 verbs
+	shapes := []seg{
+		{kind: 'L', lit: "a"}, {kind: 'L', lit: "b"}, {kind: 'S'}, {kind: 'D'},
+		{kind: 'V', path: "x", parts: []part{{kind: 'S'}}},
+		{kind: 'V', path: "x", parts: []part{{kind: 'D'}}},
+		{kind: 'V', path: "y", parts: []part{{kind: 'L', lit: "a"}, {kind: 'S'}}},
+	}
+	var lists [][]string
+	var recL func(prefix []string)
+	recL = func(prefix []string) {
+		lists = append(lists, append([]string{}, prefix...))
+		if len(prefix) == 3 {
+			return
+		}
+		for _, s := range exSymbols {
+			recL(append(append([]string{}, prefix...), s))
+		}
+	}
+	recL(nil)
+	maxT := 2
+	if thorough {
+		maxT = 3
+	}
+	var recT func(prefix []seg)
+	recT = func(prefix []seg) {
+		if len(prefix) > 0 {
+			for _, verb := range []string{"", "v"} {
+				t := tmpl{segs: prefix, verb: verb}
+				for _, l := range lists {
+					for _, v := range []string{"", "v"} {
+						count("m-exhaustive")
+						emit(fmt.Sprintf("m A:%s %s %s", t.enc(), hexList(l), common.HexS(v)))
+					}
+				}
+			}
+		}
+		if len(prefix) == maxT {
+			return
+		}
+		for _, s := range shapes {
+			recT(append(append([]seg{}, prefix...), s))
+		}
+	}
+	recT(nil)
+
+	// --- m: generated templates × derived component lists
+	n := 6000
+	if thorough {
+		n = 150000
+	}
+	for i := 0; i < n; i++ {
+		t := genTmpl(r)
+		segs := instantiate(r, t)
+		verb := ""
+		if t.verb != "" && len(segs) > 0 && r.Intn(8) != 0 { // strip the verb the way RouteHTTP does
+			l := segs[len(segs)-1]
+			segs[len(segs)-1] = strings.TrimSuffix(l, ":"+t.verb)
+			verb = t.verb
+		}
+		if r.Intn(3) == 0 {
+			segs = mutate(r, segs)
+		}
+		if r.Intn(20) == 0 {
+			verb = common.Pick(r, verbPool)
+		}
+		count("m-generated")
+		emit(fmt.Sprintf("m A:%s %s %s", t.enc(), hexList(segs), common.HexS(verb)))
+	}
+	for _, raw := range []string{"/", "", "a", "//", "/a//b", "/a/", "/{a=**}/{b=**}", "/a:b:c", "/{x}:v:w", "/a/%zz", "/a:%zz", "/{x=*}}", "/a/{x=a/*/**}:v", "/{a.b.c=*}", "/**/a/*"} {
+		for _, l := range [][]string{{}, {"a"}, {"a", "b"}, {"", ""}, {"a", "b:c"}, {"a", "%zz"}} {
+			count("m-raw")
+			emit(fmt.Sprintf("m R:%s %s %s", common.HexS(raw), hexList(l), common.HexS("")))
+		}
+	}
+
+	// --- u: request targets
+	n = 4000
+	if thorough {
+		n = 100000
+	}
+	for i := 0; i < n; i++ {
+		var segs []string
+		for j, k := 0, r.Intn(4); j <= k; j++ {
+			segs = append(segs, randSeg(r))
+		}
+		target := "/" + strings.Join(segs, "/")
+		switch r.Intn(12) {
+		case 0:
+			target += "?" + randSeg(r)
+		case 1:
+			target += "?"
+		case 2:
+			target = strings.TrimPrefix(target, "/")
+		}
+		count("u-generated")
+		emit("u " + common.Pick(r, []string{"pru", "req"}) + " " + common.HexS(target))
+	}
+
+	// --- r: generated tables × requests derived from one of their bindings (or unrelated)
+	n = 5000
+	if thorough {
+		n = 120000
+	}
+	for i := 0; i < n; {
+		table, tmpls, meths := genTable(r)
+		for j, k := 0, 2+r.Intn(6); j < k; j++ {
+			i++
+			var segs []string
+			method := common.Pick(r, methPool)
+			if len(tmpls) > 0 && r.Intn(10) != 0 {
+				q := r.Intn(len(tmpls))
+				if strings.HasPrefix(meths[q], "POST ") { // default binding of a method without bindings
+					segs = strings.Split(strings.TrimPrefix(strings.TrimPrefix(meths[q], "POST "), "/"), "/")
+					method = "POST"
+				} else {
+					segs = instantiate(r, tmpls[q])
+					method = meths[q]
+				}
+				if r.Intn(3) == 0 {
+					segs = mutate(r, segs)
+				}
+				if r.Intn(12) == 0 {
+					method = common.Pick(r, methPool)
+				}
+			} else {
+				for a, b := 0, r.Intn(4); a <= b; a++ {
+					segs = append(segs, randSeg(r))
+				}
+			}
+			path := "/" + strings.Join(segs, "/")
+			if r.Intn(40) == 0 {
+				path = strings.TrimPrefix(path, "/")
+			}
+			kind := common.Pick(r, []string{"req", "req", "raw", "path"})
+			if kind == "req" && r.Intn(15) == 0 {
+				path += "?" + randSeg(r)
+			}
+			count("r-" + kind)
+			emit(fmt.Sprintf("r %s %s %s %s", table, common.HexS(method), kind, common.HexS(path)))
+		}
+	}
+}
